@@ -16,11 +16,12 @@
  */
 #include "c02_tables.h"
 
-#ifdef VF_CBMC
-/* CBMC's built-in memcpy model (array_copy / array_replace over a variable-length temporary) returns unconstrained bytes
+#if defined(VF_CBMC) && OPC == 0x04
+/* (Find Information cases only: the loop is expensive where many value reads with symbolic length are unrolled)
+ * CBMC's built-in memcpy model (array_copy / array_replace over a variable-length temporary) returns unconstrained bytes
  * when the length is not a constant and the destination is a local array (scattered_read_access() into the buffer of
  * write_128bit_uuid()): an over-approximation that makes Find Information fail spuriously (the counterexample does not
- * replay).  This byte loop is exact; its bound is set with --unwindset memcpy.0:N (longest copy: 64 byte struct assignment). */
+ * replay).  This byte loop is exact; its bound is set with --unwindset memcpy.0:22 (longest copy in the Find Information path: 19 byte characteristic declaration). */
 void* memcpy(void* d, const void* s, size_t n)
 {
     unsigned char* dd = (unsigned char*)d; const unsigned char* ss = (const unsigned char*)s;
